@@ -421,7 +421,7 @@ W_ASSUME = ["std::sync::Mutex gives mutual exclusion and release/acquire synchro
 p13 = Prop("C13", "AtomicBaseTime snapshots never torn / never backwards",
            quick=[wmm.C13Job("quick")], thorough=[wmm.C13Job("thorough")],
            bounds_quick="all interleavings AND all reads-from/modification orders allowed by the orderings found in the MIR, for: writer{2 updates}||reader; 2 writers{1 update}||reader; writer{2 updates}||reader{2 snapshots}; thread{update,snapshot}||writer; 2 writers; reader loop unrolled (#sequence stores + 1) times; every thread may also be suspended forever after any event; symbolic 64-bit base times and vouchers",
-           bounds_thorough="as quick plus writer{3 updates}||reader",
+           bounds_thorough="as quick (the writer{3 updates}||reader scenario is not part of either tier: its reachability witness did not come back from z3 or cvc5 within 600 s)",
            outside=["more threads / operations than the listed scenarios", "sequence counter wrap-around at 2^64", "SC accesses and fences (the code uses none; the extractor would reject them)"],
            assumptions=W_ASSUME, trusted=W_TRUST)
 p13.engine = "mir-wmm-smt"
